@@ -222,10 +222,11 @@ CHECKS = {
             "thorough": "as quick with request lines of 0..5 bytes and plain-text work commands of up to 4 tokens",
         },
         "common": {"maxpaths": 400000, "witnesses": 1},
+        "schedule_harnesses": ["Verif_C08_two_sessions"],
         "assumptions": ["encoding/json replaced by the value-preserving blob model (a JSON line is one opaque object whose first byte is '{')",
                         "processes are not modelled (exec fails)"],
-        "outside": ["unbounded line growth (memory)", "latency", "more than one concurrent session (only the lock discipline that would make "
-                    "sessions interfere is checked: no lock is left held, no self-deadlock)", "request lines longer than the bound"],
+        "outside": ["unbounded line growth (memory)", "latency", "more than two concurrent sessions or more than 2 pre-emptions (two concurrent work "
+                    "commands list/status vs release/submit/status are explored under every schedule in that bound)", "request lines longer than the bound"],
         "level_text": "Bounded symbolic execution of the real RunControlSession loop over a scripted connection, of InitFromString/InitFromJSON/"
                       "ControlFunc of every built-in command and of the work command with findUnit/scanForUnit on the file-system model: no "
                       "panic, every non-empty invalid request line is answered with ERROR, the session survives to answer the next command, no "
